@@ -1,0 +1,57 @@
+//go:build verif
+
+// Executable contracts (bounded stand-ins) for package util. Compiled only with -tags verif.
+package util
+
+import (
+	"bytes"
+	"strings"
+)
+
+// BoundedRenumber (C13): for every test file built from these line tokens: the n-th test_id
+// line carries n and the n-th test_title line "<rule id>-n"; lines without a key are copied;
+// the output is empty or ends in exactly one newline with a non-blank line before it; and
+// renumbering the output again changes nothing (idempotence).
+//@ directive[C13] bounded BoundedRenumber quick=5 thorough=6 tokens="  - test_id: 7\n" "    test_title: 920100-9\n" "    desc: x\n" "\n" "  \n" "  - test_id: abc\r\n" "    uri: /" 
+
+func BoundedRenumber(in string) string {
+	r := NewTestRenumberer()
+	out, err := r.processYaml("920100", []byte(in))
+	if err != nil {
+		return "unexpected error: " + err.Error()
+	}
+	ids, titles := 0, 0
+	inLines := strings.Split(strings.ReplaceAll(in, "\r\n", "\n"), "\n")
+	outLines := strings.Split(string(out), "\n")
+	for i, l := range outLines {
+		switch {
+		case strings.Contains(l, "test_id:"):
+			ids++
+			if !strings.HasSuffix(l, "test_id: "+itoa(ids)) {
+				return "test_id line " + itoa(ids) + " is " + l
+			}
+		case strings.Contains(l, "test_title:"):
+			titles++
+			if !strings.HasSuffix(l, "test_title: 920100-"+itoa(titles)) {
+				return "test_title line " + itoa(titles) + " is " + l
+			}
+		default:
+			if i < len(inLines) && l != "" && l != inLines[i] {
+				return "line " + itoa(i) + " changed from " + inLines[i] + " to " + l
+			}
+		}
+	}
+	if len(out) > 0 {
+		if !bytes.HasSuffix(out, []byte("\n")) || bytes.HasSuffix(out, []byte("\n\n")) {
+			return "output does not end in exactly one newline"
+		}
+		if len(bytes.TrimSpace(out[bytes.LastIndexByte(out[:len(out)-1], '\n')+1:])) == 0 {
+			return "output ends in a blank line"
+		}
+	}
+	again, _ := r.processYaml("920100", out)
+	if !bytes.Equal(again, out) {
+		return "not idempotent: second run gives " + string(again)
+	}
+	return ""
+}
